@@ -53,7 +53,7 @@ def _nontrivial(fn):
 
 @rule(
     "R10a",
-    ["C10", "C02"],
+    ["C10", "C02", "C07"],
     """SEMANTIC-PARAMETER FORWARDING: in every _lower, each construction of an Expr class K must pass every
     parameter q of K that the logical class also declares under the same name (otherwise K silently falls back to
     its default while the user's value is ignored on this path only), unless q is one of the property's performance
